@@ -402,7 +402,7 @@ static void world_start(enum qb_ipc_type type, struct qb_ipcs_service_handlers *
 {
 	struct qb_ipcs_poll_handlers ph = { .job_add = w_job_add, .dispatch_add = w_dispatch_add, .dispatch_mod = w_dispatch_mod, .dispatch_del = w_dispatch_del };
 	int32_t r;
-	snprintf(svc_name, sizeof svc_name, "vp-%d-%d", (int)getpid(), vp_worker_id());
+	{ static int world_no; snprintf(svc_name, sizeof svc_name, "vp-%d-%d-%d", (int)getpid(), vp_worker_id(), world_no++); }   /* an execution that was cut leaves its service behind */
 	SL = qb_loop_create();
 	SV = qb_ipcs_create(svc_name, 4242, type, h);
 	if (!SV) vp_broken("qb_ipcs_create failed");
